@@ -92,7 +92,8 @@ Print Assumptions C01_result_resolves.
 Theorem C01_put_failure_resolves : forall s j x i k,
     0 <= j -> cached s j = Some x -> kind x = KApply -> ready x = false ->
     exists y, get_job (fst (fst (feed_tasks 1 i j k (Some k) false s))) j = Some y
-              /\ ready y = true /\ value y = Some PPutFailed.
+              /\ ready y = true /\ value y = Some PPutFailed /\ incache y = false
+              /\ sem (fst (fst (feed_tasks 1 i j k (Some k) false s))) = LaxSem.release (sem s).
 Proof. exact put_failure_resolves. Qed.
 Print Assumptions C01_put_failure_resolves.
 
